@@ -207,7 +207,9 @@ def _surface_case(desc, ctx, rng):
     ctx.cls("prequery:%s" % desc["prequery"])
     if nontri or len(ops) >= 2:
         ctx.nontrivial(stable_hash([len(V0), F0, ops, desc["prequery"]]))
-    ok, m = ctx.call("build", build.surface, V0, F0, monitor="result")
+    irows = ["list", "tuple", "nprow", "npint"][desc["seed"] % 4]
+    ctx.cls("rows:" + irows)
+    ok, m = ctx.call("build", build.surface, V0, F0, "list", irows, monitor="result")
     ref0 = RefSurface(len(V0), F0)
     P0 = surfconn.probes(ref0, random.Random(1))
     S0 = surfconn.script(P0)
@@ -261,10 +263,10 @@ def _surface_case(desc, ctx, rng):
         needs_tri = op[0] in ("loop", "3quads", "6")
         try:
             if pre or needs_tri:
-                ok, mk = ctx.call("build", build.surface, V0, F0, monitor="newverts")
+                ok, mk = ctx.call("build", build.surface, V0, F0, "list", irows, monitor="newverts")
                 ok, bk = ctx.call("surface_block_prefix", _apply_surface_ops, ctx, mk, pre + ([["triangulate", 0]] if needs_tri else []), monitor="newverts")
                 base = {"V": build.vertices_array(bk), "E": build.edges_list(bk), "F": build.faces_list(bk)}
-            ok, mk = ctx.call("build", build.surface, V0, F0, monitor="newverts")
+            ok, mk = ctx.call("build", build.surface, V0, F0, "list", irows, monitor="newverts")
             ok, rk = ctx.call("surface_block_prefix", _apply_surface_ops, ctx, mk, ops[:k + 1], monitor="newverts")
         except CaseAbort:
             break
@@ -316,7 +318,9 @@ def _volume_case(desc, ctx, rng):
         ctx.nontrivial(stable_hash([len(V0), C0, ops, desc["prequery"]]))
     else:
         ctx.nontrivial(stable_hash([len(V0), C0, ops, desc["prequery"], "vol"]))
-    ok, m = ctx.call("build", build.volume, V0, C0, monitor="result")
+    irows = ["list", "tuple", "nprow", "npint"][desc["seed"] % 4]
+    ctx.cls("rows:" + irows)
+    ok, m = ctx.call("build", build.volume, V0, C0, "list", irows, monitor="result")
     ref0 = RefVolume(len(V0), C0)
     if desc["prequery"]:
         P0 = volconn.probes(ref0, random.Random(1))
@@ -399,7 +403,7 @@ def _volume_case(desc, ctx, rng):
     base = {"V": np.asarray(V0, float), "E": sorted(ref0.edges), "F": [list(t) for t in ref0.faces], "C": C0}
     for k, op in enumerate(ops):
         try:
-            ok, mk = ctx.call("build", build.volume, V0, C0, monitor="newverts")
+            ok, mk = ctx.call("build", build.volume, V0, C0, "list", irows, monitor="newverts")
             ok, rk = ctx.call("volume_block_prefix", _apply_volume_ops, ctx, mk, ops[:k + 1], monitor="newverts")
         except CaseAbort:
             break
